@@ -36,8 +36,8 @@ LEVEL_TEXT = ("Machine-checked: for every tree, declaration list, name and value
 LEVEL_NOTE = ("Trusted: Lean kernel; axioms propext/Classical.choice/Quot.sound only; the hand transcription of KeyTable.cpp, "
               "StylesheetRoot::getNodeSetByKey, FunctionKey::execute, Stylesheet::postConstruction (validated by the "
               "correspondence run, bounded by generator coverage); translate/c15_functionkey.py. Modelled, not verified: "
-              "XalanMap as an association list; addNodeInDocOrder for one XalanSourceTree document with the linear instead of the "
-              "binary insertion-point search (full function is C12); XPath match/use evaluation (abstract in the theorems; a "
+              "XalanMap as an association list; addNodeInDocOrder for one XalanSourceTree document incl. the binary insertion-point search (multi-document "
+              "lists are C12); XPath match/use evaluation (abstract in the theorems; a "
               "spec-style evaluator for the generated fragment plus the observed getMatchScore behaviour on the document node in "
               "the driver); XalanSourceTree node indices increasing in document order; generate-id() injective. Not modelled: "
               "xsl:strip-space, namespace nodes, key() on result tree fragments (getKeyNode's fragment branch), key() inside "
@@ -55,6 +55,7 @@ THEOREMS = [
     "XalanModel.Props.C15.key_nodeset_union",
     "XalanModel.Props.C15.key_nodeset_union_partial",
     "XalanModel.Props.C15.key_nodeset_union_counterexample",
+    "XalanModel.Props.C15.insertion_point_binary_eq_linear",
     "XalanModel.Props.C15.key_history_independent",
     "XalanModel.Props.C15.key_answer_same_after_any_history",
     "XalanModel.Props.C15.key_calls_spec",
@@ -230,7 +231,6 @@ def judge(case, res):
 
 DEVIATIONS = {
     "E": "nodeset-arg.empty-string-value-skipped",   # FunctionKey.cpp nRefs>1 guard (Generated.C15_FunctionKey.skipEmptyRefs)
-    "N": "root-matched-by-node()-pattern",            # getMatchScore on the document node (Concrete.rootQuirk)
 }
 
 
@@ -248,7 +248,9 @@ def sub_cases(case):
             yield dict(c, sheets=[s for s in c["sheets"] if s[0] != sid])
     last = len(c["docs"]) - 1
     if last > 0 and not any(x["doc"] == last or x.get("argdoc") == last for x in c["calls"]):
-        yield dict(c, docs=c["docs"][:last])
+        yield dict(c, docs=c["docs"][:last], rtf=[k for k in c.get("rtf", []) if k != last])
+    for k in c.get("rtf", []):
+        yield dict(c, rtf=[j for j in c["rtf"] if j != k])
     for k, d in enumerate(c["docs"]):
         for nd in shrink_tree(d):
             yield dict(c, docs=c["docs"][:k] + [nd] + c["docs"][k + 1:], calls=[dict(x, ctx=0) for x in c["calls"]])
@@ -305,7 +307,7 @@ def describe(case):
     return {"docs": [G.doc_xml(d) for d in case["docs"]],
             "sheets": [list(s) for s in case["sheets"]],
             "decls": [list(d) for d in case["decls"]],
-            "calls": case["calls"],
+            "calls": case["calls"], "rtf": case.get("rtf", []),
             "case": case}
 
 
@@ -317,7 +319,7 @@ def from_json(c):
             return ("E", n[1], [tuple(a) for a in n[2]], [tup(k) for k in n[3]], bool(n[4]) if len(n) > 4 else False)
         return tuple(n)
     return {"id": c.get("id", "replay"), "docs": [tup(d) for d in c["docs"]], "sheets": [tuple(s) for s in c["sheets"]],
-            "decls": [tuple(d) for d in c["decls"]], "calls": c["calls"]}
+            "decls": [tuple(d) for d in c["decls"]], "calls": c["calls"], "rtf": c.get("rtf", [])}
 
 
 def corpus():
@@ -388,8 +390,7 @@ def run(ctx):
     ctx.trusted += [
         "translate/c15_functionkey.py (regex over FunctionKey::execute)",
         "harness/c15_keys.cpp + gen/c15_gen.py + checks/c15.py (generator, renderer of documents/stylesheets, decoding of generate-id())",
-        "modelled, not verified: XalanMap as association list; addNodeInDocOrder for one XalanSourceTree document, linear instead "
-        "of binary insertion-point search (C12); match/use evaluation abstract in the theorems, spec-style evaluator for the "
+        "modelled, not verified: XalanMap as association list; addNodeInDocOrder for one XalanSourceTree document (multi-document lists: C12); match/use evaluation abstract in the theorems, spec-style evaluator for the "
         "generated fragment (+ observed getMatchScore behaviour on the document node) in the driver; XalanSourceTree indices "
         "increase in document order; generate-id() injective",
         "not modelled: xsl:strip-space, namespace nodes, key() on result tree fragments, key() inside match/use",
@@ -421,6 +422,8 @@ def run(ctx):
         text = "\n".join(G.request_lines(case)[1:]) if nontriv else None
         ctx.case(nontrivial_key=text, sample=describe(case)["decls"] + [c for c in case["calls"][:2]] if ci in (ncorpus, ncorpus + 1) else None,
                  cls="docs=%d" % len(case["docs"]))
+        if case.get("rtf"):
+            ctx.hist["with result-tree-fragment document"] = ctx.hist.get("with result-tree-fragment document", 0) + 1
         for c in case["calls"]:
             ctx.hist["call:" + c["kind"]] = ctx.hist.get("call:" + c["kind"], 0) + 1
         ctx.hist["modules=%d" % len(case["sheets"])] = ctx.hist.get("modules=%d" % len(case["sheets"]), 0) + 1
